@@ -286,6 +286,10 @@ pub fn build_poset(shape: &Shape) -> Poset {
                 let retries = (s.attempts > 1).then(|| (k, s.attempts - 1 - k));
                 let last_attempt = k + 1 == s.attempts;
                 let mut seq = vec![ScEv::Started];
+                if s.events >= 4 {
+                    // a log line emitted inside the scenario: an event like any other
+                    seq.push(ScEv::Log(format!("log of {sname}")));
+                }
                 if s.events >= 3 {
                     seq.push(ScEv::Step(
                         false,
@@ -604,6 +608,13 @@ pub fn tier_shapes(thorough: bool) -> Vec<Shape> {
     for feats in three {
         v.push(Shape { feats, parsing_finished: false, parse_err: false, twins: false });
     }
+    // scenarios that log (Started, Log, step result, Finished), next to the events that are
+    // forwarded at once
+    for (pf, pe) in [(false, false), (true, false), (true, true)] {
+        v.push(Shape { feats: vec![one(0, 1, 4)], parsing_finished: pf, parse_err: pe, twins: false });
+        v.push(Shape { feats: vec![one(1, 2, 4)], parsing_finished: pf, parse_err: pe, twins: false });
+    }
+    v.push(Shape { feats: vec![one(0, 1, 4), one(0, 1, 4)], parsing_finished: false, parse_err: false, twins: false });
     v
 }
 
